@@ -458,6 +458,11 @@ func fnType(name string, a []VT) (VT, int) {
 		}
 		return tInvalid, sigUnspec // duration/time/regex: accepted by the function, absent from its declared signature
 	}
+	if name == "duration" && len(a) == 2 && a[1] != tDur && oneOf(a[0], tString, tDur) {
+		// the unit is not used for string and duration values ("unit is optional depending on the
+		// type of value"): whether a unit of the wrong type (or a missing one) is an error is open
+		return tInvalid, sigUnspec
+	}
 	for _, t := range a {
 		if t == tMissing || t == tInvalid {
 			return tInvalid, sigErr
